@@ -318,6 +318,27 @@ def _frame_link_poses(ctx, prog):
         shape = [(('ELEM' if not _is_self_fld(a, 'frame') else 'frame'), e) for a, e in w]
         shape_f = [(('ELEM' if not _is_self_fld(a, 'frame') else 'frame'), e) for a, e in wf]
         word_ok.append(shape == shape_f and len(w) == 2)
+    if not ups:
+        # the array taken apart and rebuilt: [p[0], p[1], p[2], p[3], p[4], p[5] * frame]
+        rt = strip(util.peval(prog, b.return_term()))
+        inner = strip(b.call_term(t, (bi, None)))
+        if isinstance(rt, tuple) and rt[0] == 'agg' and rt[1] == 'array' and len(rt) == 8:
+            el = [strip(e) for e in rt[2:]]
+
+            def is_elem(x, k):
+                x = strip(x)
+                return isinstance(x, tuple) and x[0] == 'idx' and strip(x[1]) == inner and util.const_val(x[2]) == k
+            same = all(is_elem(el[k], k) for k in range(5))
+            w = algebra.word(el[5])
+            wf = algebra.word(fwd.return_term())
+            shape = [(('ELEM' if not _is_self_fld(a, 'frame') else 'frame'), e) for a, e in w]
+            shape_f = [(('ELEM' if not _is_self_fld(a, 'frame') else 'frame'), e) for a, e in wf]
+            e5 = algebra.canon(('idx', inner, ('const', 'usize', 5, None)))
+            last = len(w) == 2 and shape == shape_f and [a for a, e in w if not _is_self_fld(a, 'frame')] == [e5]
+            ctx.check(same and last, 'R09.4', key, b.where(bi), b.path,
+                      'Frame must return link poses 1..5 of the inner robot unchanged and pose 6 with the same word as its forward',
+                      found=show(rt, maxdepth=5), detail='rebuilt array')
+            return
     ctx.check(len(ups) == 1 and all(idx_ok) and all(word_ok), 'R09.4', key, b.where(bi), b.path,
               'Frame must rewrite exactly link pose 6 with the same word as its forward (updates: %d, index ok: %s, word ok: %s)' % (len(ups), idx_ok, word_ok))
 
